@@ -49,7 +49,7 @@ def gen(rng):
 
     def emit_site(ch, indent, expr_start_text, body_text):
         """add a line `indent + prefix + body` and return (line, col of body's first char, enclosing wrappers [(line, col)] innermost first)"""
-        wrap = rng.below(6)
+        wrap = rng.below(9)
         ind = indent + " " * rng.below(4) + ("\t" if rng.chance(1, 6) else "")
         wrappers = []
         if wrap == 0:
@@ -62,8 +62,18 @@ def gen(rng):
             pre, post = "pr(", ")"
         elif wrap == 4:
             pre, post = "if (true) { ", " }"
-        else:
+        elif wrap == 5:
             pre, post = "pr(1); ", "; pr(2)"
+        elif wrap == 6:
+            # a statement (not the first) of a loop body: Unused_Return rebuilds such call nodes
+            k = rng.below(100000)
+            pre, post = "var w%d = 0; while (w%d < 1) { ++w%d; pr(0); " % (k, k, k), "; pr(2) }"
+        elif wrap == 7:
+            k = rng.below(100000)
+            pre, post = "for (var k%d = 0; k%d < 1; ++k%d) { pr(0); " % (k, k, k), rng.choice(["; pr(2) }", " }"])
+        else:
+            k = rng.below(100000)
+            pre, post = "var w%d = 0; while (w%d < 1) { ++w%d; if (true) { pr(0); " % (k, k, k), " } }"
         ln = ch.add(ind + pre + body_text + post)
         col = len(ind) + len(pre) + 1
         if wrap == 3:
